@@ -67,7 +67,7 @@ let show_event = function
   | EvLost c -> None
   | EvReleased c -> None
   | EvReady (toks, wk) -> Some (Printf.sprintf "Y%s%s" (String.concat "," (List.map (fun t -> string_of_int (int_of_nat t)) toks)) (if wk then "w" else ""))
-  | EvPauseOn | EvPauseOff -> None
+  | EvPauseOn | EvPauseOff | EvKilled _ -> None
   | EvExit -> Some "EXIT"
 
 let rec take n l = if n <= 0 then [] else match l with [] -> [] | x :: t -> x :: take (n - 1) t
